@@ -52,10 +52,13 @@ Record st := mkSt {
   inflight : list cb;
   next_timer : nat;
   next_cb : nat;
-  last_ok : list (key * Z)      (* ghost: time of the last accepted template per key, cleared by an invalidation *)
+  last_ok : list (key * Z);     (* ghost: time of the last accepted template per key, cleared by an invalidation *)
+  tick : Z                      (* constant: how far the clock moves on each clock read by the collector's own
+                                   goroutine (0 = time stands still inside addTemplate) *)
 }.
 
-Definition init : st := mkSt 0 [] [] [] 0 0 [].
+Definition init_tick (tk : Z) : st := mkSt 0 [] [] [] 0 0 [] tk.
+Definition init : st := init_tick 0.
 
 Inductive act :=
 | ATemplate (k : key) (tag : N)     (* valid template record for k *)
@@ -79,13 +82,13 @@ Definition set_armed (t : nat) (a : option Z) (tms : list (nat * timer)) : list 
   end.
 
 Definition with_timers (s : st) (tms : list (nat * timer)) : st :=
-  mkSt (now s) (tpls s) tms (inflight s) (next_timer s) (next_cb s) (last_ok s).
+  mkSt (now s) (tpls s) tms (inflight s) (next_timer s) (next_cb s) (last_ok s) (tick s).
 Definition with_tpls (s : st) (tp : list (key * tpl)) : st :=
-  mkSt (now s) tp (timers s) (inflight s) (next_timer s) (next_cb s) (last_ok s).
+  mkSt (now s) tp (timers s) (inflight s) (next_timer s) (next_cb s) (last_ok s) (tick s).
 Definition with_inflight (s : st) (fl : list cb) : st :=
-  mkSt (now s) (tpls s) (timers s) fl (next_timer s) (next_cb s) (last_ok s).
+  mkSt (now s) (tpls s) (timers s) fl (next_timer s) (next_cb s) (last_ok s) (tick s).
 Definition with_last_ok (s : st) (g : list (key * Z)) : st :=
-  mkSt (now s) (tpls s) (timers s) (inflight s) (next_timer s) (next_cb s) g.
+  mkSt (now s) (tpls s) (timers s) (inflight s) (next_timer s) (next_cb s) g (tick s).
 
 Definition timer_stop (t : nat) (s : st) : st := with_timers s (set_armed t None (timers s)).
 Definition timer_reset (t : nat) (d : Z) (s : st) : st :=
@@ -94,21 +97,28 @@ Definition timer_reset (t : nat) (d : Z) (s : st) : st :=
 Definition after_func (k : key) (d : Z) (s : st) : nat * st :=
   let t := next_timer s in
   (t, mkSt (now s) (tpls s) (upd Nat.eqb t (mkTimer k (Some (now s + d))) (timers s))
-           (inflight s) (S t) (next_cb s) (last_ok s)).
+           (inflight s) (S t) (next_cb s) (last_ok s) (tick s)).
+
+(* cp.clock.Now() on the collector's own goroutine: returns now; the clock may have moved on
+   (by tick) by the time the next statement runs *)
+Definition clock_read (s : st) : Z * st :=
+  (now s, mkSt (now s + tick s) (tpls s) (timers s) (inflight s) (next_timer s) (next_cb s) (last_ok s) (tick s)).
 
 (* ---------- process.go ---------- *)
 (* addTemplate, protocol "udp" (process.go:413-459) *)
 Definition add_template (ttl : Z) (k : key) (tag : N) (s : st) : st :=
   match get_tpl k s with
   | None =>
-      (* tpl = &template{}; expiryTimer == nil: AfterFunc *)
-      let expiry := now s + ttl in
-      let '(t, s1) := after_func k ttl s in
+      (* tpl = &template{}; expiryTime = Now()+ttl; expiryTimer == nil: AfterFunc *)
+      let '(t0, s0) := clock_read s in
+      let expiry := t0 + ttl in
+      let '(t, s1) := after_func k ttl s0 in
       with_tpls s1 (upd key_eqb k (mkTpl tag expiry t) (tpls s1))
   | Some p =>
       (* same object: ies and expiryTime overwritten, expiryTimer.Reset(ttl) *)
-      let expiry := now s + ttl in
-      let s1 := with_tpls s (upd key_eqb k (mkTpl tag expiry (t_timer p)) (tpls s)) in
+      let '(t0, s0) := clock_read s in
+      let expiry := t0 + ttl in
+      let s1 := with_tpls s0 (upd key_eqb k (mkTpl tag expiry (t_timer p)) (tpls s0)) in
       timer_reset (t_timer p) ttl s1
   end.
 
@@ -155,14 +165,14 @@ Definition step (ttl : Z) (s : st) (a : act) : st :=
   | AData _ => s
   | AAdvance d =>
       if d <? 0 then s
-      else mkSt (now s + d) (tpls s) (timers s) (inflight s) (next_timer s) (next_cb s) (last_ok s)
+      else mkSt (now s + d) (tpls s) (timers s) (inflight s) (next_timer s) (next_cb s) (last_ok s) (tick s)
   | AFire t =>
       match armed_of t s with
       | Some dl =>
           if dl <=? now s then
             let s1 := timer_stop t s in     (* the runtime takes the timer off its heap *)
             mkSt (now s1) (tpls s1) (timers s1) (inflight s1 ++ [mkCb (next_cb s1) t None])
-                 (next_timer s1) (S (next_cb s1)) (last_ok s1)
+                 (next_timer s1) (S (next_cb s1)) (last_ok s1) (tick s1)
           else s
       | None => s
       end
@@ -178,21 +188,24 @@ Definition step (ttl : Z) (s : st) (a : act) : st :=
       end
   end.
 
-Definition run (ttl : Z) (acts : list act) : st := fold_left (step ttl) acts init.
+Definition run_tick (ttl tk : Z) (acts : list act) : st := fold_left (step ttl) acts (init_tick tk).
+Definition run (ttl : Z) (acts : list act) : st := run_tick ttl 0 acts.
 
 (* ---------- specification-level ghost, from the action sequence alone ---------- *)
 Record gst := mkG { g_now : Z; g_ok : list (key * Z) }.
 Definition ginit : gst := mkG 0 [].
-Definition gstep (g : gst) (a : act) : gst :=
+Definition gstep (tk : Z) (g : gst) (a : act) : gst :=
   match a with
-  | ATemplate k _ => mkG (g_now g) (upd key_eqb k (g_now g) (g_ok g))
+  | ATemplate k _ => mkG (g_now g + tk) (upd key_eqb k (g_now g) (g_ok g))
   | ABad k => mkG (g_now g) (del key_eqb k (g_ok g))
   | AAdvance d => if d <? 0 then g else mkG (g_now g + d) (g_ok g)
   | _ => g
   end.
-Definition grun (acts : list act) : gst := fold_left gstep acts ginit.
+Definition grun_tick (tk : Z) (acts : list act) : gst := fold_left (gstep tk) acts ginit.
+Definition grun (acts : list act) : gst := grun_tick 0 acts.
 (* time of the last accepted, not since invalidated, template for k *)
-Definition last_accept (acts : list act) (k : key) : option Z := lookup key_eqb k (g_ok (grun acts)).
+Definition last_accept_tick (tk : Z) (acts : list act) (k : key) : option Z := lookup key_eqb k (g_ok (grun_tick tk acts)).
+Definition last_accept (acts : list act) (k : key) : option Z := last_accept_tick 0 acts k.
 
 (* ---------- observation ---------- *)
 Definition universe : list key := [(1, 256); (1, 257); (2, 256); (2, 257)]%N.
@@ -253,19 +266,20 @@ Definition quiescent_obs (o : obs) : bool :=
   forallb (fun e => o_now o <? snd e) (o_armed o) && match o_inflight o with [] => true | _ => false end.
 
 (* one stored template: consistent with the history (P1/P2) and with the timers (P3) *)
-Definition check_tpl (ttl : Z) (ok : list (key * Z)) (o : obs) (e : key * tpl) : bool :=
+Definition check_tpl (ttl tk : Z) (ok : list (key * Z)) (o : obs) (e : key * tpl) : bool :=
   let '(k, p) := e in
   match lookup key_eqb k ok with
   | None => false                                        (* never accepted / invalidated: must be gone *)
   | Some t0 =>
       (t_expiry p =? t0 + ttl) &&
-      (* P3: armed at its expiry, or unarmed with a callback of that timer in flight *)
+      (* P3: armed at its expiry (not before it, at most tk after it), or unarmed with a callback
+         of that timer in flight *)
       match lookup Nat.eqb (t_timer p) (o_armed o) with
-      | Some d => d =? t_expiry p
+      | Some d => (t_expiry p <=? d) && (d <=? t_expiry p + tk)
       | None => existsb (fun c => Nat.eqb (c_timer c) (t_timer p)) (o_inflight o)
       end &&
       (* P2: nothing pending => lifetime not yet over *)
-      (negb (quiescent_obs o) || (o_now o <? t_expiry p))
+      (negb (quiescent_obs o) || (o_now o <? t_expiry p + tk))
   end.
 
 Definition stored_obs (o : obs) (k : key) : option tpl := lookup key_eqb k (o_tpls o).
@@ -289,9 +303,9 @@ Fixpoint check_probes (o : obs) (ks : list key) (rs : list (option N)) : bool :=
   | _, _ => false
   end.
 
-Definition check_obs (ttl : Z) (g : gst) (o : obs) : bool :=
+Definition check_obs (ttl tk : Z) (g : gst) (o : obs) : bool :=
   (o_now o =? g_now g) &&
-  forallb (check_tpl ttl (g_ok g) o) (o_tpls o) &&
+  forallb (check_tpl ttl tk (g_ok g) o) (o_tpls o) &&
   forallb (check_alive ttl o) (g_ok g) &&
   check_probes o universe (o_probe o) &&
   (* P3: every armed timer belongs to a stored template; templates do not share timers or keys *)
@@ -300,10 +314,10 @@ Definition check_obs (ttl : Z) (g : gst) (o : obs) : bool :=
   nodupb key_eqb (map fst (o_tpls o)) &&
   nodupb Nat.eqb (map fst (o_armed o)).
 
-Fixpoint check_trace (ttl : Z) (g : gst) (acts : list act) (os : list obs) : bool :=
+Fixpoint check_trace (ttl tk : Z) (g : gst) (acts : list act) (os : list obs) : bool :=
   match acts, os with
   | [], [] => true
-  | a :: acts', o :: os' => let g' := gstep g a in check_obs ttl g' o && check_trace ttl g' acts' os'
+  | a :: acts', o :: os' => let g' := gstep tk g a in check_obs ttl tk g' o && check_trace ttl tk g' acts' os'
   | _, _ => false
   end.
 
